@@ -754,6 +754,9 @@ class Evaluator:
                         env2[p] = Other()
                 sub.run(env2)
                 self.problems.extend(sub.problems)
+                funs = [v for _, v, _ in sub.raw_returns if isinstance(v, tuple) and v[0] == "func"]
+                if funs and len(funs) == len(sub.raw_returns) and all(v[1] is funs[0][1] for v in funs):
+                    return funs[0]  # a selector that returns one known function on every path taken
                 tups = [v for _, v, _ in sub.raw_returns if isinstance(v, tuple) and v[0] == "tuple"]
                 if tups and len(tups) == len(sub.raw_returns) and all(len(t[1]) == len(tups[0][1]) for t in tups):
                     # every return is a tuple of the same length: merge component-wise
@@ -820,6 +823,21 @@ class Evaluator:
             v = env.get(t.left.id)
             if isinstance(v, Other) and isinstance(v.const, str):
                 return (v.const == t.comparators[0].value) == isinstance(t.ops[0], ast.Eq)
+        if isinstance(t, ast.Compare) and len(t.ops) == 1 and isinstance(t.ops[0], (ast.Eq, ast.NotEq)) and all(isinstance(x, (ast.Name, ast.Constant)) for x in (t.left, t.comparators[0])):
+            # two locals / constants holding known strings (a table-driven dispatch after unrolling)
+            def known(x):
+                if isinstance(x, ast.Constant):
+                    return x.value if isinstance(x.value, str) else None
+                v = env.get(x.id)
+                if isinstance(v, Other) and isinstance(v.const, str):
+                    return v.const
+                if isinstance(v, tuple) and v and v[0] == "func":
+                    return v
+                return None
+
+            l, r = known(t.left), known(t.comparators[0])
+            if l is not None and r is not None and (isinstance(l, str) or isinstance(r, str)):
+                return (l == r) == isinstance(t.ops[0], ast.Eq)
         if isinstance(t, ast.Call) and call_name(t) == "is_tensor" and len(t.args) == 1 and isinstance(t.args[0], ast.Name) and t.args[0].id in env:
             v = env[t.args[0].id]
             if isinstance(v, Deg):
@@ -969,6 +987,10 @@ class Evaluator:
 
     def loop(self, s: ast.For, env):
         it = s.iter
+        if isinstance(it, ast.Call) and is_name(it.func, "range") and len(it.args) == 1 and not isinstance(it.args[0], ast.Constant):
+            hi0 = self.ev(it.args[0], env)
+            if isinstance(hi0, Other) and isinstance(hi0.const, int) and not isinstance(hi0.const, bool) and hi0.const <= 0:
+                return  # range(n if flag else 0) with the flag off: the body never runs
         enum = isinstance(it, ast.Call) and is_name(it.func, "enumerate") and it.args
         # `for i in range(len(L))` / `range(0, len(L))`: a loop over the positions of L
         pos_of = None
@@ -998,11 +1020,16 @@ class Evaluator:
         else:
             lst = self.ev(it.args[0] if enum else it, env)
         zipped = None
+        zipped_mixed = None
         if isinstance(it, ast.Call) and is_name(it.func, "zip") and len(it.args) >= 2:
             zs = [self.ev(a, env) for a in it.args]
             if all(isinstance(z, ListV) for z in zs):
                 zipped = zs
                 lst = zs[0] if all(z.length == zs[0].length for z in zs) else ListV(("?", 0), zs[0].elem(), {})
+            else:
+                # mixed operands (positions, arrays, lists): each target gets the element of its own operand
+                zipped_mixed = [Deg(z.elem()) if isinstance(z, ListV) else (Deg(z.v) if isinstance(z, Deg) else Other()) for z in zs]
+                lst = Other()
         length = lst.length if isinstance(lst, ListV) else (counted if counted is not None else ("?", 0))
         if plist is not None:
             length = plist.length
@@ -1066,6 +1093,8 @@ class Evaluator:
             gen_elem = Deg(lst.default if lst.default is not None else lst.elem())
         if zipped is not None:
             gen_elem = ("tuple", [Deg(z.elem()) for z in zipped])
+        if zipped_mixed is not None:
+            gen_elem = ("tuple", zipped_mixed)
         # positions evaluated one by one: those with an exactly known element, and the first one
         # when the body tests for it
         peel = []
